@@ -35,6 +35,21 @@ theorem C14_code_shrink (r : QReg R) (n : Nat) (h : n < r.qNum) (hn : n < 64) :
     quant_set_num (ofModel r) n = quant_new n := by
   rw [quant_set_num_eq r n hn, quant_new_eq n hn, C14_shrink r n h]
 
+/-- **growing with the translated `set_num`** adds qubits in `|0>`: the old amplitudes stay where they were, every other
+amplitude is 0, sizes and mask are those of `n` qubits -/
+theorem C14_code_grow (r : QReg R) (n : Nat) (h : r.qNum ≤ n) (hn : n < 64)
+    (wf : r.psi.size = max (2 ^ r.qNum) 8 ∧ r.qMask = 2 ^ r.qNum - 1 ∧ ∀ i, 2 ^ r.qNum ≤ i → bufFn r.psi i = 0) :
+    let q := quant_set_num (ofModel r) n
+    q.q_num = n ∧ q.q_mask = 2 ^ n - 1 ∧ q.psi.length = max (2 ^ n) 8 ∧
+    ∀ i, q.psi.getD i 0 = if i < 2 ^ r.qNum then bufFn r.psi i else 0 := by
+  intro q
+  obtain ⟨h1, h2, h3, h4⟩ := C14_grow r n h wf
+  have hq : q = ofModel (r.setNum n) := quant_set_num_eq r n hn
+  rw [hq]
+  refine ⟨h1, h2, by simpa [ofModel] using h3, fun i => ?_⟩
+  rw [← h4 i]
+  simp [ofModel, bufFn, Array.getD_eq_getD_getElem?, List.getD_eq_getElem?_getD]
+
 /-- **the translated tensor product**: sizes add, and amplitude `i` is `a[i mod 2^na] * b[i div 2^na]` below `2^(na+nb)`,
 zero above -/
 theorem C14_code_tensor (a b : QReg R) (ha : a.qMask = 2 ^ a.qNum - 1) (hb : b.qMask = 2 ^ b.qNum - 1)
